@@ -309,6 +309,21 @@ def build(tier, seed):
                                                                   order],
                                              'observable': obs, 'custom_keys': ck,
                                              'index': ix})
+    # many individuals (more than any colour palette holds), an individual with
+    # dose rows of amount zero
+    for cls in CLASSES:
+        rows13 = []
+        for k in range(13):
+            rows13.append([100 + k, 0.5 + 0.1 * k, 'A', 1.0 + 0.2 * k, None, None])
+            rows13.append([100 + k, 1.5, 'A', 2.0 + 0.1 * k, None, None])
+            if cls in ('PKTS', 'PKPP'):
+                rows13.append([100 + k, 0.0, None, None,
+                               0.0 if k % 4 == 1 else 1.0 + k, 0.5])
+                if k % 4 == 1:
+                    rows13.append([100 + k, 1.0, None, None, 0.0, None])
+        for order in (list(range(len(rows13))), list(range(len(rows13)))[::-1]):
+            data.append({'cls': cls, 'rows': [rows13[i] for i in order],
+                         'observable': 'A', 'custom_keys': False})
     # small frames: every row permutation
     small = [[1, 0.5, 'A', 2.0, None, None], [2, 0.5, 'A', 2.0, None, None],
              [1, 1.5, 'B', 3.0, None, None], [2, 1.0, 'A', 1.0, None, None]]
@@ -358,6 +373,16 @@ def build(tier, seed):
                         'samples': [[0.5, [float(v) for v in range(1, n0 + 1)]],
                                     [1.5, [0.5 * v for v in range(1, n1 + 1)]]],
                         'row_order': ['asc', 'desc', 'interleaved'][k_ % 3]})
+    # distinct time points that differ only far behind the decimal point
+    for cls in ('PDPP', 'PKPP'):
+        for t0, dt in ((10000.0, 0.005), (1.0, 1e-9), (250.0, 1e-4)):
+            for ps in ([0.5], [0.9], [0.3, 0.8]):
+                bands.append({
+                    'cls': cls, 'probs': ps,
+                    'samples': [[t0, [float(v) for v in range(1, 11)]],
+                                [t0 + dt, [100.0 + v for v in range(1, 31)]],
+                                [t0 + 2 * dt, [1000.0 + v for v in range(1, 21)]]],
+                    'row_order': 'asc'})
     return {
         'parts': [
             Part('data', data, w_data, 'figure class x ID sets x observables x row '
